@@ -147,7 +147,7 @@ def run (kv : KV) : String :=
   let okResults := results.all (· == "ok")
   let flag (k : String) : Bool := !has kv k || get kv k == "1"
   let aheadOk := !has kv "i_expect_received" || get kv "received" == get kv "i_expect_received"
-  let extra := ",same:" ++ b01 (flag "same") ++ ",prefix:" ++ b01 (flag "prefix") ++ ",fresh:" ++ b01 (!has kv "fresh" || get kv "fresh" != "0")
+  let extra := ",same:" ++ b01 (flag "same") ++ ",prefix:" ++ b01 (flag "prefix" && flag "complete") ++ ",fresh:" ++ b01 (!has kv "fresh" || get kv "fresh" != "0")
     ++ ",nopanic:" ++ b01 (!has kv "panicked" || get kv "panicked" == "0") ++ ",ahead:" ++ b01 aheadOk
     ++ ",noabort:" ++ b01 ((!has kv "aborted" || get kv "aborted" == "0") && (!has kv "abort" || get kv "abort" == "0"))
     ++ ",hold:" ++ b01 holdOk
@@ -177,6 +177,7 @@ def run (kv : KV) : String :=
       ++ (if has kv "i_fam" then ["fam:" ++ get kv "i_fam"] else [])
       ++ (if has kv "i_tag" then ["tag:" ++ String.ofList ((get kv "i_tag").toList.filter (fun c => !c.isDigit))] else [])
       ++ (if has kv "werr" then ["werr:1"] else [])
+      ++ (if has kv "park" then ["park:" ++ get kv "park"] else [])
       ++ (if get kv "i_holdneed" == "1" then ["holdneed:1"] else [])
       ++ (if (List.range t.delivered.length).any (fun i => (script i).zeroRead) then ["zeroread:1"] else [])
       ++ (if bytes.length > 300000 then ["size:huge"] else [])
